@@ -1174,13 +1174,27 @@ func onlyStopwatchUses(v ssa.Value, depth int, seen map[ssa.Value]bool) bool {
 	for _, r := range *refs {
 		switch x := r.(type) {
 		case *ssa.DebugRef:
-		case *ssa.Call:
-			n, _ := calleeName(x.Common())
+		case *ssa.Call, *ssa.Defer, *ssa.Go:
+			_ = x
+			ci := r.(ssa.CallInstruction)
+			n, callee := calleeName(ci.Common())
+			if callee != nil && stopwatchProg != nil && stopwatchProg.inModule(callee) && callee.Blocks != nil && !ci.Common().IsInvoke() {
+				// handed to a module helper: its parameter must be a stopwatch operand too
+				for i, a := range ci.Common().Args {
+					if a == v && (i >= len(callee.Params) || !onlyStopwatchUses(callee.Params[i], depth+1, seen)) {
+						return false
+					}
+				}
+				continue
+			}
+			if _, isCall := r.(*ssa.Call); !isCall {
+				return false
+			}
 			switch n {
 			case "time.Since":
 			case "(time.Time).Sub":
 				// a difference of two wall-clock readings — not "now minus an instant of the message"
-				for _, a := range x.Common().Args {
+				for _, a := range ci.Common().Args {
 					if a != v && !fromStopwatchStart(stopwatchProg, a, 0, map[ssa.Value]bool{}) {
 						return false
 					}
@@ -1188,8 +1202,6 @@ func onlyStopwatchUses(v ssa.Value, depth int, seen map[ssa.Value]bool) bool {
 			default:
 				return false
 			}
-		case *ssa.Defer:
-			return false
 		case *ssa.Phi:
 			if !onlyStopwatchUses(x, depth+1, seen) {
 				return false
